@@ -13,7 +13,7 @@ CORR_MODULE = 'Savable Corr_C19'
 CASE_TYPE = 'C19_case'
 MODEL_FN = 'c19_model'
 SHARD = 250
-RULE = ('Savable class shape (inheritance chain, decorator / classmethod declarations) x member kinds and values x nesting x future state x '
+RULE = ('Savable class shape (inheritance chain, decorator / classmethod / persist()-hook declarations, with and without earlier saves of the other classes) x member kinds and values x nesting x future state x '
         '(global loader, save context, load context); real classes created per case, saved and loaded; non-trivial = a custom loader is involved, '
         'or the object has a nested Savable / future / method member, or the chain has depth >= 2; distinct = distinct case')
 ASSUMPTIONS = ['member values are plain data, own bound methods, Savables or SavableFutures', 'copy.deepcopy is faithful on plain data']
@@ -130,6 +130,12 @@ def build_classes(classes, suffix):
         setattr(procs, name + suffix, klass)
         if form == 'decorator':
             klass = persistence.auto_persist(*own)(klass)
+        elif form == 'hook':
+            # the members are declared in the persist() hook, which runs when an instance is first saved or loaded
+            def persist(cls, _own=tuple(own), _klass=klass):
+                super(_klass, cls).persist()
+                cls.auto_persist(*_own)
+            klass.persist = classmethod(persist)
         else:
             klass.auto_persist(*own)
         real[name] = klass
@@ -235,6 +241,14 @@ def run_impl(case):
         loaders.set_object_loader(mk[case['glob']]())
         other = real[case['classes'][0][0]].__new__(real[case['classes'][0][0]])
         inst = build_obj(case['obj'], real, lp, other)
+        if case.get('warm'):
+            # instances of the other classes of the chain have been saved before (root first): that must not change anything
+            for cname in [c[0] for c in case['classes']]:
+                if cname != case['obj']['cls']:
+                    try:
+                        build_obj({'cls': cname, 'attrs': [[n, ['plain', 1]] for n in persisted(case['classes'], cname)]}, real, lp, other).save(None)
+                    except Exception:  # noqa: BLE001
+                        pass
         save_ctx = persistence.LoadSaveContext(loader=procs.PrefixLoader()) if case['save_ctx'] == 'custom' else (
             persistence.LoadSaveContext(loader=plumpy.DefaultObjectLoader()) if case['save_ctx'] == 'default' else None)
         obs = {}
@@ -417,6 +431,8 @@ def shapes():
     S.append([['K0', None, ['a'], 'decorator'], ['K1', 'K0', ['b'], 'classmethod']])
     S.append([['K0', None, ['a'], 'classmethod'], ['K1', 'K0', ['b', 'a'], 'decorator'], ['K2', 'K1', ['c'], 'decorator']])
     S.append([['K0', None, [], 'decorator'], ['K1', 'K0', ['a', 'b', 'c'], 'classmethod']])
+    S.append([['K0', None, ['a'], 'hook'], ['K1', 'K0', ['b'], 'hook'], ['K2', 'K1', ['c'], 'hook']])
+    S.append([['K0', None, ['a'], 'decorator'], ['K1', 'K0', ['b', 'c'], 'hook']])
     return S
 
 
@@ -448,6 +464,11 @@ def generate(tier, rng, around=None):
                 o = obj_for(classes, cls, [['fut', f], ['plain', 1]])
                 for glob, sc, lc in LOADER_CFGS[:4]:
                     cases.append({'classes': classes, 'obj': o, 'glob': glob, 'save_ctx': sc, 'load_ctx': lc})
+        # ... and after instances of the other classes of the chain were saved
+        for cls in [c[0] for c in shape]:
+            for vs in ([['plain', 1], ['plain', [2]], ['plain', 'c']], [['method', True, 'm1'], ['plain', {'k': 1}], ['plain', None]]):
+                cases.append({'classes': classes, 'obj': obj_for(classes, cls, vs), 'glob': 'default', 'save_ctx': None, 'load_ctx': None,
+                              'transport': 'copy', 'warm': True})
         # parents must stay savable after their subclasses were declared
         for cls in [c[0] for c in shape[:-1]]:
             cases.append({'classes': classes, 'obj': obj_for(classes, cls, [['plain', 1]]), 'glob': 'default', 'save_ctx': None, 'load_ctx': None})
